@@ -289,7 +289,7 @@ def part_signs(R):
         idents = INSTANCES[:n_inst]
         for n_proc in (1, 2, 3, 4):
             for sign in ('#', '@'):
-                for lst in (['*'], idents[::-1], idents[:1]):
+                for lst in (['*'], idents[::-1], idents[:1], ['nope'], ['nope', idents[0]]):
                     R.n += 1
                     sv = _Sv(idents=idents)
                     group = HomogeneousGroup('prg', sv)
@@ -320,6 +320,49 @@ def part_signs(R):
                     R.distinct.add(('sign', sign, n_inst, n_proc, str(got)))
                     if got != want:
                         R.report({'clause': 'sign-spreading', 'signature': f'C18:sign:{sign}', 'got': got, 'want': want}, case)
+
+
+def part_signs_growing(R):
+    """'#' over a group that grows between two resolutions (numprocs increased): the processes already assigned keep their
+    instance and the spreading stays equal (the counts per instance never differ by more than one)."""
+    for n_inst in (2, 3):
+        idents = INSTANCES[:n_inst]
+        for first in (1, 2, 3, 4):
+            for more in (1, 2, 3):
+                for more2 in (0, 1, 2):
+                    R.n += 1
+                    sv = _Sv(idents=idents)
+                    group = HomogeneousGroup('prg', sv)
+                    procs = []
+
+                    def grow(n):
+                        for _ in range(n):
+                            r = ProcessRules(sv)
+                            r.hash_identifiers, r.identifiers = ['*'], []
+                            p = ProcessStatus('app', f'prg_{len(procs)}', r, sv)
+                            p._process_index = len(procs)
+                            p._program_name = 'prg'
+                            procs.append(p)
+                            group.add_process(p)
+                    case = {'part': 'sign-resolution-growing', 'instances': idents, 'steps': [first, more, more2]}
+                    try:
+                        before = []
+                        for n in (first, more, more2):
+                            grow(n)
+                            group.resolve_rules()
+                            got = [list(p.rules.identifiers) for p in procs]
+                            moved = [k for k, (a_, b_) in enumerate(zip(before, got)) if a_ != b_]
+                            counts = {i: sum(1 for g in got if g == [i]) for i in idents}
+                            unassigned = [k for k, g in enumerate(got) if len(g) != 1 or g[0] not in idents]
+                            if moved or unassigned or max(counts.values()) - min(counts.values()) > 1:
+                                R.report({'clause': 'sign-spreading-after-growth', 'signature': 'C18:sign:#:growing',
+                                          'got': got, 'moved': moved, 'unassigned': unassigned, 'counts': counts}, case)
+                                break
+                            before = got
+                        R.distinct.add(('sign-growing', n_inst, first, more, more2, str(got)))
+                    except Exception as exc:
+                        R.report({'clause': 'sign-resolution-raises', 'signature': f'C18:sign:exception:{type(exc).__name__}',
+                                  'exc': repr(exc)[:200]}, case)
 
 
 def part_hostile_names(R):
@@ -463,6 +506,7 @@ def main():
     part_scalars(R)
     part_identifiers(R)
     part_signs(R)
+    part_signs_growing(R)
     part_hostile_names(R)
     options_part(R)
     cov = out.coverage
